@@ -62,6 +62,7 @@ func main() {
 			os.Exit(2)
 		}
 		rules.DumpNarrow(os.Stdout, p)
+		rules.DumpNarrowArith(os.Stdout, p)
 	case "errors":
 		p, err := load.Load("/repo", false)
 		if err != nil {
